@@ -214,3 +214,137 @@ Proof.
   replace 2 with (c18_cycle_verdict (h_mode h) na c); [apply in_map; exact I|].
   unfold c18_cycle_verdict. now rewrite C, K.
 Qed.
+
+(* ---------- non-vacuity: two recorded histories ---------- *)
+
+Definition xcyc (anc sa sb : oentry) (pa pb stage : bool) (ta tb ra rb : option (list change))
+  (ok : bool) (disk wa0 wb0 wa wb : oentry) : cyc :=
+  {| k_anc := anc; k_sa := sa; k_sb := sb; k_pa := pa; k_pb := pb; k_stage := stage;
+     k_ta := ta; k_tb := tb; k_ra := ra; k_rb := rb; k_ok := ok; k_disk := disk;
+     k_wa0 := wa0; k_wb0 := wb0; k_wa := wa; k_wb := wb |}.
+Definition xhist (m : mode) (docker : bool) (n : option bool) (cs : list cyc) : hist :=
+  {| h_mode := m; h_docker := docker; h_n := n; h_cycles := cs |}.
+
+Local Open Scope string_scope.
+
+(* recorded by goharness/cmd/history: alpha creates a file and a directory;
+   both roots delete the file; manager restart; alpha creates the file again
+   with the old content; a quiescent cycle *)
+Definition ex_hist : hist := xhist TwoWaySafe false None [
+ xcyc None
+  (Some (EDir [("d", EDir [("x", EFile true "h1"); ("y", EFile false "h1")]); ("f", EFile false "h0"); ("k", EFile false "h2")]))
+  (Some (EDir [("k", EFile false "h2")]))
+  true true true
+  None
+  (Some [(mk ["d"] None (Some (EDir [("x", EFile true "h1"); ("y", EFile false "h1")]))); (mk ["f"] None (Some (EFile false "h0")))])
+  None
+  (Some [(mk ["d"] None (Some (EDir [("x", EFile true "h1"); ("y", EFile false "h1")]))); (mk ["f"] None (Some (EFile false "h0")))])
+  true (Some (EDir [("d", EDir [("x", EFile true "h1"); ("y", EFile false "h1")]); ("f", EFile false "h0"); ("k", EFile false "h2")]))
+  (Some (EDir [("d", EDir [("x", EFile true "h1"); ("y", EFile false "h1")]); ("f", EFile false "h0"); ("k", EFile false "h2")]))
+  (Some (EDir [("k", EFile false "h2")]))
+  (Some (EDir [("d", EDir [("x", EFile true "h1"); ("y", EFile false "h1")]); ("f", EFile false "h0"); ("k", EFile false "h2")]))
+  (Some (EDir [("d", EDir [("x", EFile true "h1"); ("y", EFile false "h1")]); ("f", EFile false "h0"); ("k", EFile false "h2")]));
+ xcyc (Some (EDir [("d", EDir [("x", EFile true "h1"); ("y", EFile false "h1")]); ("f", EFile false "h0"); ("k", EFile false "h2")]))
+  (Some (EDir [("d", EDir [("x", EFile true "h1"); ("y", EFile false "h1")]); ("k", EFile false "h2")]))
+  (Some (EDir [("d", EDir [("x", EFile true "h1"); ("y", EFile false "h1")]); ("k", EFile false "h2")]))
+  true true false
+  None
+  None
+  None
+  None
+  true (Some (EDir [("d", EDir [("x", EFile true "h1"); ("y", EFile false "h1")]); ("k", EFile false "h2")]))
+  (Some (EDir [("d", EDir [("x", EFile true "h1"); ("y", EFile false "h1")]); ("k", EFile false "h2")]))
+  (Some (EDir [("d", EDir [("x", EFile true "h1"); ("y", EFile false "h1")]); ("k", EFile false "h2")]))
+  (Some (EDir [("d", EDir [("x", EFile true "h1"); ("y", EFile false "h1")]); ("k", EFile false "h2")]))
+  (Some (EDir [("d", EDir [("x", EFile true "h1"); ("y", EFile false "h1")]); ("k", EFile false "h2")]));
+ xcyc (Some (EDir [("d", EDir [("x", EFile true "h1"); ("y", EFile false "h1")]); ("k", EFile false "h2")]))
+  (Some (EDir [("d", EDir [("x", EFile true "h1"); ("y", EFile false "h1")]); ("f", EFile false "h0"); ("k", EFile false "h2")]))
+  (Some (EDir [("d", EDir [("x", EFile true "h1"); ("y", EFile false "h1")]); ("k", EFile false "h2")]))
+  true true true
+  None
+  (Some [(mk ["f"] None (Some (EFile false "h0")))])
+  None
+  (Some [(mk ["f"] None (Some (EFile false "h0")))])
+  true (Some (EDir [("d", EDir [("x", EFile true "h1"); ("y", EFile false "h1")]); ("f", EFile false "h0"); ("k", EFile false "h2")]))
+  (Some (EDir [("d", EDir [("x", EFile true "h1"); ("y", EFile false "h1")]); ("f", EFile false "h0"); ("k", EFile false "h2")]))
+  (Some (EDir [("d", EDir [("x", EFile true "h1"); ("y", EFile false "h1")]); ("k", EFile false "h2")]))
+  (Some (EDir [("d", EDir [("x", EFile true "h1"); ("y", EFile false "h1")]); ("f", EFile false "h0"); ("k", EFile false "h2")]))
+  (Some (EDir [("d", EDir [("x", EFile true "h1"); ("y", EFile false "h1")]); ("f", EFile false "h0"); ("k", EFile false "h2")]));
+ xcyc (Some (EDir [("d", EDir [("x", EFile true "h1"); ("y", EFile false "h1")]); ("f", EFile false "h0"); ("k", EFile false "h2")]))
+  (Some (EDir [("d", EDir [("x", EFile true "h1"); ("y", EFile false "h1")]); ("f", EFile false "h0"); ("k", EFile false "h2")]))
+  (Some (EDir [("d", EDir [("x", EFile true "h1"); ("y", EFile false "h1")]); ("f", EFile false "h0"); ("k", EFile false "h2")]))
+  true true false
+  None
+  None
+  None
+  None
+  true (Some (EDir [("d", EDir [("x", EFile true "h1"); ("y", EFile false "h1")]); ("f", EFile false "h0"); ("k", EFile false "h2")]))
+  (Some (EDir [("d", EDir [("x", EFile true "h1"); ("y", EFile false "h1")]); ("f", EFile false "h0"); ("k", EFile false "h2")]))
+  (Some (EDir [("d", EDir [("x", EFile true "h1"); ("y", EFile false "h1")]); ("f", EFile false "h0"); ("k", EFile false "h2")]))
+  (Some (EDir [("d", EDir [("x", EFile true "h1"); ("y", EFile false "h1")]); ("f", EFile false "h0"); ("k", EFile false "h2")]))
+  (Some (EDir [("d", EDir [("x", EFile true "h1"); ("y", EFile false "h1")]); ("f", EFile false "h0"); ("k", EFile false "h2")]))].
+
+(* recorded: Docker-style ignores ["t"; "!t/r"], alpha reports no
+   executability, two-way-resolved; in the third cycle both sides have modified
+   f and alpha wins (the known class of C18) *)
+Definition ex_hist_n : hist := xhist TwoWayResolved true (Some true) [
+ xcyc None
+  (Some (EDir [("k", EFile false "h0")]))
+  (Some (EDir [("f", EFile true "h1"); ("k", EFile false "h0"); ("t", EPhantom [("o", EUntracked); ("r", EFile true "h2")])]))
+  false true true
+  (Some [(mk ["t"] None (Some (EDir [("r", EFile true "h2")]))); (mk ["f"] None (Some (EFile true "h1")))])
+  None
+  (Some [(mk ["t"] None (Some (EDir [("r", EFile true "h2")]))); (mk ["f"] None (Some (EFile true "h1")))])
+  None
+  true (Some (EDir [("f", EFile true "h1"); ("k", EFile false "h0"); ("t", EDir [("r", EFile true "h2")])]))
+  (Some (EDir [("k", EFile false "h0")]))
+  (Some (EDir [("f", EFile true "h1"); ("k", EFile false "h0"); ("t", EDir [("o", EFile false "h1"); ("r", EFile true "h2")])]))
+  (Some (EDir [("f", EFile true "h1"); ("k", EFile false "h0"); ("t", EDir [("r", EFile true "h2")])]))
+  (Some (EDir [("f", EFile true "h1"); ("k", EFile false "h0"); ("t", EDir [("o", EFile false "h1"); ("r", EFile true "h2")])]));
+ xcyc (Some (EDir [("f", EFile true "h1"); ("k", EFile false "h0"); ("t", EDir [("r", EFile true "h2")])]))
+  (Some (EDir [("f", EFile false "h3"); ("k", EFile false "h0"); ("t", EPhantom [("r", EFile false "h2")])]))
+  (Some (EDir [("f", EFile true "h1"); ("k", EFile false "h0"); ("t", EPhantom [("o", EUntracked); ("r", EFile true "h2")])]))
+  false true true
+  None
+  (Some [(mk ["f"] (Some (EFile true "h1")) (Some (EFile true "h3")))])
+  None
+  (Some [(mk ["f"] None (Some (EFile true "h3")))])
+  true (Some (EDir [("f", EFile true "h3"); ("k", EFile false "h0"); ("t", EDir [("r", EFile true "h2")])]))
+  (Some (EDir [("f", EFile false "h3"); ("k", EFile false "h0"); ("t", EDir [("r", EFile true "h2")])]))
+  (Some (EDir [("f", EFile true "h1"); ("k", EFile false "h0"); ("t", EDir [("o", EFile false "h1"); ("r", EFile true "h2")])]))
+  (Some (EDir [("f", EFile false "h3"); ("k", EFile false "h0"); ("t", EDir [("r", EFile true "h2")])]))
+  (Some (EDir [("f", EFile true "h3"); ("k", EFile false "h0"); ("t", EDir [("o", EFile false "h1"); ("r", EFile true "h2")])]));
+ xcyc (Some (EDir [("f", EFile true "h3"); ("k", EFile false "h0"); ("t", EDir [("r", EFile true "h2")])]))
+  (Some (EDir [("f", EFile false "h4"); ("k", EFile false "h0"); ("t", EPhantom [("r", EFile false "h2")])]))
+  (Some (EDir [("f", EFile true "h2"); ("k", EFile false "h0"); ("t", EPhantom [("o", EUntracked); ("r", EFile true "h2")])]))
+  false true true
+  None
+  (Some [(mk ["f"] (Some (EFile true "h2")) (Some (EFile false "h4")))])
+  None
+  (Some [(mk ["f"] None (Some (EFile false "h4")))])
+  true (Some (EDir [("f", EFile false "h4"); ("k", EFile false "h0"); ("t", EDir [("r", EFile true "h2")])]))
+  (Some (EDir [("f", EFile false "h4"); ("k", EFile false "h0"); ("t", EDir [("r", EFile true "h2")])]))
+  (Some (EDir [("f", EFile true "h2"); ("k", EFile false "h0"); ("t", EDir [("o", EFile false "h1"); ("r", EFile true "h2")])]))
+  (Some (EDir [("f", EFile false "h4"); ("k", EFile false "h0"); ("t", EDir [("r", EFile true "h2")])]))
+  (Some (EDir [("f", EFile false "h4"); ("k", EFile false "h0"); ("t", EDir [("o", EFile false "h1"); ("r", EFile true "h2")])]));
+ xcyc (Some (EDir [("f", EFile false "h4"); ("k", EFile false "h0"); ("t", EDir [("r", EFile true "h2")])]))
+  (Some (EDir [("f", EFile false "h4"); ("k", EFile false "h0"); ("t", EPhantom [("r", EFile false "h2")])]))
+  (Some (EDir [("f", EFile false "h4"); ("k", EFile false "h0"); ("t", EPhantom [("o", EUntracked); ("r", EFile true "h2")])]))
+  false true false
+  None
+  None
+  None
+  None
+  true (Some (EDir [("f", EFile false "h4"); ("k", EFile false "h0"); ("t", EDir [("r", EFile true "h2")])]))
+  (Some (EDir [("f", EFile false "h4"); ("k", EFile false "h0"); ("t", EDir [("r", EFile true "h2")])]))
+  (Some (EDir [("f", EFile false "h4"); ("k", EFile false "h0"); ("t", EDir [("o", EFile false "h1"); ("r", EFile true "h2")])]))
+  (Some (EDir [("f", EFile false "h4"); ("k", EFile false "h0"); ("t", EDir [("r", EFile true "h2")])]))
+  (Some (EDir [("f", EFile false "h4"); ("k", EFile false "h0"); ("t", EDir [("o", EFile false "h1"); ("r", EFile true "h2")])]))].
+
+Lemma ex_hist_passes :
+  wf_hist ex_hist = true /\ plain_hist ex_hist = true /\ corr_hist ex_hist = true
+  /\ check_hist_c05 ex_hist = true /\ check_hist_c01 ex_hist = true /\ check_hist_c04 ex_hist = true
+  /\ List.length (h_cycles ex_hist) = 4 /\ quiet_steps (h_cycles ex_hist) = 1
+  /\ wf_hist ex_hist_n = true /\ check_hist_c04 ex_hist_n = true /\ c18_hist_verdict ex_hist_n = 6
+  /\ map (c18_cycle_verdict (h_mode ex_hist_n) true) (h_cycles ex_hist_n) = [0; 0; 6; 0].
+Proof. vm_compute. repeat split; reflexivity. Qed.
